@@ -230,6 +230,9 @@ func (g *coreGen) condExpr(depth int) *ref.Expr {
 	case 7:
 		return &ref.Expr{K: "truth", A: g.varOf(pool.Bools, ref.TBool)}
 	case 8:
+		if g.chance(40, "truth-of-local") {
+			return &ref.Expr{K: "truth", A: g.varOf(pool.Strs, ref.TStr)} // a STRING local: falsy while not set
+		}
 		return &ref.Expr{K: "truth", A: g.hdr()}
 	case 9:
 		if len(g.acls) > 0 {
